@@ -750,3 +750,145 @@ impl MemBalancerTrigger {
         self.current_heap_pages.store(new_heap, Ordering::Relaxed);
     }
 }
+
+/// Verification hooks (only with `--cfg mmtk_verif`): drive [`MemBalancerTrigger`] and
+/// [`FixedHeapSizeTrigger`] without an `MMTK` instance.
+///
+/// `on_gc_start`/`on_gc_release`/`on_gc_end` take `&'static MMTK<VM>` only to read the clock and
+/// the plan's page counters. The `gc_*` methods below are those callbacks with the clock
+/// differences and the page counters passed in explicitly (non-generational plans; for
+/// generational plans `nursery == true` means "the current GC is a nursery GC" and the
+/// `mature_*` arguments stand for `get_mature_reserved_pages()`); every statistic is stored in the
+/// real `MemBalancerStats`, and the new limit is computed by the real `compute_new_heap_limit`.
+/// `on_pending_allocation` and the getters are the real trait methods.
+#[cfg(mmtk_verif)]
+pub mod verif_hooks {
+    use super::*;
+
+    /// A stand-alone `MemBalancerTrigger`.
+    pub struct VerifMemBalancer(MemBalancerTrigger);
+
+    impl VerifMemBalancer {
+        /// `MemBalancerTrigger::new(min_heap_pages, max_heap_pages)` (precondition of
+        /// `DynamicHeapSize`: `min <= max`).
+        pub fn new(min_heap_pages: usize, max_heap_pages: usize) -> Self {
+            VerifMemBalancer(MemBalancerTrigger::new(min_heap_pages, max_heap_pages))
+        }
+
+        /// The trigger as the policy object a `GCTrigger` would hold.
+        pub fn policy<VM: VMBinding>(&self) -> &dyn GCTriggerPolicy<VM> {
+            &self.0
+        }
+
+        /// `on_gc_start` of a non-generational plan: `since_last_gc_secs` is
+        /// `gc_start_time - gc_end_time`, `reserved_pages` is `plan.get_reserved_pages()`.
+        pub fn gc_start(&self, since_last_gc_secs: f64, reserved_pages: usize) {
+            self.0.access_stats(|stats| {
+                stats.gc_start_time = Instant::now();
+                stats.allocation_time += since_last_gc_secs;
+                stats.allocation_pages =
+                    reserved_pages.saturating_sub(stats.gc_end_live_pages) as f64;
+            });
+        }
+
+        /// `on_gc_start` of a generational plan.
+        pub fn gen_gc_start(&self, since_last_gc_secs: f64) {
+            self.0.access_stats(|stats| {
+                stats.gc_start_time = Instant::now();
+                stats.allocation_time += since_last_gc_secs;
+            });
+        }
+
+        /// `on_gc_release` of a non-generational plan.
+        pub fn gc_release(&self, reserved_pages: usize) {
+            self.0.access_stats(|stats| {
+                stats.gc_release_live_pages = reserved_pages;
+            });
+        }
+
+        /// `on_gc_release` of a generational plan.
+        pub fn gen_gc_release(&self, nursery: bool, mature_reserved_pages: usize) {
+            self.0.access_stats(|stats| {
+                if !nursery {
+                    stats.gc_release_live_pages = mature_reserved_pages;
+                    let promoted = stats
+                        .gc_release_live_pages
+                        .saturating_sub(stats.gc_end_live_pages);
+                    stats.allocation_pages = promoted as f64;
+                }
+            });
+        }
+
+        /// `on_gc_end` of a non-generational plan: `gc_secs` is `gc_end_time - gc_start_time`,
+        /// `reserved_pages` is `plan.get_reserved_pages()`, `collection_reserved_pages` is
+        /// `plan.get_collection_reserved_pages()`.
+        pub fn gc_end(&self, gc_secs: f64, reserved_pages: usize, collection_reserved_pages: usize) {
+            self.0.access_stats(|stats| {
+                stats.gc_end_time = Instant::now();
+                stats.collection_time += gc_secs;
+                stats.gc_end_live_pages = reserved_pages;
+                stats.collection_pages = stats.gc_end_live_pages as f64;
+                self.0
+                    .compute_new_heap_limit(reserved_pages, collection_reserved_pages, stats);
+            });
+            self.0.pending_pages.store(0, Ordering::SeqCst);
+        }
+
+        /// `on_gc_end` of a generational plan; `extra_reserve` is
+        /// `get_collection_reserved_pages() + get_min_nursery_pages()`.
+        pub fn gen_gc_end(
+            &self,
+            gc_secs: f64,
+            nursery: bool,
+            mature_reserved_pages: usize,
+            reserved_pages: usize,
+            extra_reserve: usize,
+        ) {
+            self.0.access_stats(|stats| {
+                stats.gc_end_time = Instant::now();
+                stats.collection_time += gc_secs;
+                if !nursery {
+                    stats.gc_end_live_pages = mature_reserved_pages;
+                    stats.collection_pages = stats.gc_end_live_pages as f64;
+                    self.0
+                        .compute_new_heap_limit(reserved_pages, extra_reserve, stats);
+                }
+            });
+            self.0.pending_pages.store(0, Ordering::SeqCst);
+        }
+
+        /// The private `compute_new_heap_limit` with every statistic given explicitly (the four
+        /// "current" statistics are overwritten; the "previous" ones are whatever the last
+        /// computation left).
+        pub fn compute_with(
+            &self,
+            live: usize,
+            extra_reserve: usize,
+            allocation_pages: f64,
+            allocation_time: f64,
+            collection_pages: f64,
+            collection_time: f64,
+        ) {
+            self.0.access_stats(|stats| {
+                stats.allocation_pages = allocation_pages;
+                stats.allocation_time = allocation_time;
+                stats.collection_pages = collection_pages;
+                stats.collection_time = collection_time;
+                self.0.compute_new_heap_limit(live, extra_reserve, stats);
+            });
+        }
+
+        /// The pending pages currently recorded.
+        pub fn pending_pages(&self) -> usize {
+            self.0.pending_pages.load(Ordering::SeqCst)
+        }
+    }
+
+    /// A stand-alone `FixedHeapSizeTrigger` as `GCTrigger::new` builds it for
+    /// `FixedHeapSize(bytes)`.
+    pub fn verif_fixed_trigger<VM: VMBinding>(bytes: usize) -> Box<dyn GCTriggerPolicy<VM>> {
+        Box::new(FixedHeapSizeTrigger {
+            total_pages: conversions::bytes_to_pages_up(bytes),
+        })
+    }
+}
